@@ -11,30 +11,40 @@
 (* Level A: row r is read from the rowInfo with tile*TileSize + index = r, *)
 (* and is empty iff there is none.  Level B: the code's map from row to    *)
 (* position in the flat list of rowInfos.                                  *)
+(* A tile may also hold a record for an EMPTY row (cell_count 0, no cell    *)
+(* offsets): Numbers does not write them, the library's own writer writes  *)
+(* one per row, and a whole-row merge leaves one.                           *)
 (* Bug = "CountHeaders": positions are counted over header records.        *)
+(* Bug = "SkipEmptyRecords": the list of row buffers leaves out records    *)
+(* with no cells while positions still count them.                         *)
 (***************************************************************************)
 EXTENDS Integers, Sequences, FiniteSets, TLC
 CONSTANTS NR, TileSize, Bug
-VARIABLES nonEmpty,   \* set of rows that have a rowInfo
+VARIABLES nonEmpty,   \* set of rows that hold at least one cell (each has a rowInfo)
+          recorded,   \* set of rows that have a rowInfo (superset of nonEmpty; the others are records with cell_count 0)
           headered    \* set of rows that have a header record (superset of nonEmpty)
-vars == <<nonEmpty, headered>>
+vars == <<nonEmpty, recorded, headered>>
 Rows == 0..(NR - 1)
 Init == /\ nonEmpty \in SUBSET Rows
+        /\ recorded \in {nonEmpty \cup e : e \in SUBSET (Rows \ nonEmpty)}
         /\ headered \in {nonEmpty \cup e : e \in SUBSET (Rows \ nonEmpty)}
 Next == UNCHANGED vars
 Spec == Init /\ [][Next]_vars
-\* the flat list of rowInfos in tile order: <<tile, tile_row_index>>
 SortedSeq(S) == CHOOSE s \in [1..Cardinality(S) -> S] : \A a, b \in 1..Cardinality(S) : a < b => s[a] < s[b]
-RowInfos == LET s == SortedSeq(nonEmpty) IN [k \in 1..Len(s) |-> <<s[k] \div TileSize, s[k] % TileSize>>]
-\* Level A
-SpecPos(r) == IF r \in nonEmpty THEN CHOOSE k \in 1..Len(RowInfos) : RowInfos[k][1] * TileSize + RowInfos[k][2] = r ELSE 0
-\* Level B: the code's map  row -> position (0 = None)
+\* the flat list of rowInfos in tile order: <<tile, tile_row_index, 1 if it holds cells else 0>>
+RowInfos == LET s == SortedSeq(recorded) IN [k \in 1..Len(s) |-> <<s[k] \div TileSize, s[k] % TileSize, IF s[k] \in nonEmpty THEN 1 ELSE 0>>]
+RowOf(ri) == ri[1] * TileSize + ri[2]
+\* Level B: the code keeps (1) a flat list of decoded row buffers and (2) a map  row -> position in that list (0 = None)
+Buffers == IF Bug = "SkipEmptyRecords" THEN SelectSeq(RowInfos, LAMBDA ri : ri[3] = 1) ELSE RowInfos
 CodePos(r) ==
   IF Bug = "CountHeaders"
     THEN (IF r \in headered THEN Cardinality({x \in headered : x <= r}) ELSE 0)          \* idx counts header records
-    ELSE (IF r \in nonEmpty THEN Cardinality({x \in nonEmpty : x <= r}) ELSE 0)          \* counts rowInfos via tile / tile_row_index
-\* a position beyond the list reads as "no cell" in the code
-Reads(r) == LET p == CodePos(r) IN IF p = 0 \/ p > Len(RowInfos) THEN -1 ELSE RowInfos[p][1] * TileSize + RowInfos[p][2]
+    ELSE (IF r \in recorded THEN Cardinality({x \in recorded : x <= r}) ELSE 0)          \* counts rowInfos via tile / tile_row_index
+\* a position beyond the list, or a buffer without cells, reads as "no cell" in the code
+Reads(r) == LET p == CodePos(r) IN
+            IF p = 0 \/ p > Len(Buffers) THEN -1
+            ELSE IF Buffers[p][3] = 0 THEN -1 ELSE RowOf(Buffers[p])
+\* Level A: row r shows the cells of the record that declares r, and nothing if no record with cells declares it
 RowAtDeclaredIndex == \A r \in Rows : Reads(r) = (IF r \in nonEmpty THEN r ELSE -1)
-EmitStore == PrintT("R " \o ToString(SortedSeq(nonEmpty)) \o " " \o ToString(SortedSeq(headered \ nonEmpty)))
+EmitStore == PrintT("R " \o ToString(SortedSeq(nonEmpty)) \o " " \o ToString(SortedSeq(headered \ nonEmpty)) \o " " \o ToString(SortedSeq(recorded \ nonEmpty)))
 ====
